@@ -20,6 +20,7 @@ molecular / frozen labels, a grand-canonical run whose state point is re-assigne
 than a factor of three in every chain on the same side is flagged (and re-measured) whatever its z-score.
 Grand-canonical ideal gases are also confined to a slab of the cell through the exchange move's check_move (one
 placement per trial with refused placements as failed trials; placements redrawn with the slab as accessible volume).
+One grand-canonical workload leaves max_cycles at its default (one cycle per atom at construction), read once per step.
 """
 from __future__ import annotations
 
@@ -90,6 +91,7 @@ def plan(tier, seed):
         W.append({"kind": "grand", "name": f"grand-lam{lam}-{'N2' if mol else 'Ar'}-framework{fw}", "lam": lam, "mol": mol, "tri": False, "mixed": True, "fw": fw, "L": L["g"]})
     for lam, mol, f, mode in [(4.0, False, 0.5, "single-attempt"), (3.0, False, 0.3, "redrawn")] + ([(3.0, True, 0.5, "single-attempt"), (8.0, False, 0.7, "single-attempt")] if big else []):
         W.append({"kind": "grand", "name": f"grand-lam{lam}-{'N2' if mol else 'Ar'}-restricted-region-{f}-{mode}", "lam": lam, "mol": mol, "tri": False, "mixed": False, "region": {"f": f, "mode": mode}, "L": L["g"]})
+    W.append({"kind": "grand", "name": "grand-lam5.0-Ar-default-cycles", "lam": 5.0, "mol": False, "tri": False, "mixed": False, "default_cycles": True, "L": L["g"] // 3})
     return [{"name": w["name"], "w": w, "seed": seed} for w in W]
 
 
@@ -217,6 +219,8 @@ def chain_grand(w, seed, L):
     mu = kT * math.log(w["lam"] * lam3 / Veff)
     r = np.random.default_rng(seed % 2**32)
     n0 = int(r.poisson(w["lam"]))
+    if w.get("default_cycles"):
+        n0 = max(1, n0)  # (an empty box would mean zero cycles per step)
     atoms = Atoms(cell=cell, pbc=True)
     labels = []
     fw = int(w.get("fw", 0))
@@ -233,7 +237,10 @@ def chain_grand(w, seed, L):
         atoms += a
         labels += [m] * size
     atoms.calc = IdealGas()
-    mc = GrandCanonical(atoms, exchange_atoms=species, temperature=T, chemical_potential=mu, number_of_exchange_particles=n0, max_cycles=1, seed=seed)
+    # one trial per step, except in the workloads that leave max_cycles at its documented default (one cycle per atom present
+    # at construction; the observable is still read once per step, as an observer would)
+    ckw = {} if w.get("default_cycles") else {"max_cycles": 1}
+    mc = GrandCanonical(atoms, exchange_atoms=species, temperature=T, chemical_potential=mu, number_of_exchange_particles=n0, seed=seed, **ckw)
     op = {"t": "TranslationRotation"} if w["mol"] else None
     mc.add_move(sims.build_move({"t": "E", "op": op}, np.array(labels, dtype=int), {}), name="x", probability=1.0)
     if region:
